@@ -13,6 +13,8 @@ CHECKS = {
          "as C01; refresh on a frozen manager may either refuse or succeed as long as nothing observable changes"),
  "C18": ("fault_enumeration", "3.4", "TLC fault model (every crash position of every reachable update) + replay with fault-injecting containers",
          "faults are injected at the first write of the k-th scheduled task (and the initial write); multi-write partial failures of a LinearKnob are out of the enumerated positions"),
+ "C07": ("model_checking", "6", "TableIndex.tla (index column + lazily built cache) checked with TLC; every generated transition replayed on a real Table, lookups compared with the spec's Resolve",
+         "3-name alphabet, 0..3 rows exhaustive (4 thorough), node identity includes last probed snapshot so lookup/update interleavings stay distinct"),
 }
 
 NOT_YET = {}
